@@ -411,7 +411,7 @@ func TestC16(t *testing.T) {
 		rec.Rule("positions (suite/bench/synthetic/motif roots + playout path) x hash move candidate {absent, a generated move, near miss with altered promotion bits/target, random 15-bit encoding} x ranker state {fresh, trained by generated FailHigh(d<=63, weights over the whole Score range) calls along the path, saturated by >=50 repeated updates}; the picker is used as the search uses it (picker.New, Push, iterate, Pop on the shared move store) and NESTED: the outer picker is stopped after a drawn number of yields, the move made, an inner picker run to exhaustion on a new frame (recursively), then the outer one resumed. Oracle: multiset of yields == set of GenNoisy+GenNotNoisy, hash move first iff IsPseudoLegal, YieldedMoves == delivered prefix; all weights inside their bands after every update. Exhaustive one-step table: every stored value x every int16 bonus for the three history stores. Non-trivial = pseudo-legal quiet hash move, invalid hash move from an own piece, or saturated ranker; distinct by (position, hash move, nest level)")
 		rec.Assume("the engine's own generator is the reference for the move set (C01 checks it against the rules); band limits read from heur.MaxHistory / Captures / HashMove")
 		oneStep(rec)
-		rec.Rapid(t, "picker", evid.Pick(60000, 1000000), func(t *rapid.T) {
+		rec.Rapid(t, "picker", evid.Pick(60000, 3000000), func(t *rapid.T) {
 			root, label := gen.Root(t)
 			c := Case{FEN: root.FEN()}
 			end := gen.Playout(t, root, 16, func(ply int, p *refchess.Pos, legal []refchess.Move, m refchess.Move) bool {
